@@ -18,7 +18,9 @@ def requests(draw, size: int, unit: int, count: int = 6, max_len: int = 3 << 20,
     deltas = [-ALIGN - 1, -ALIGN, -513, -512, -511, -1, 0, 1, 511, 512, 513, ALIGN - 1, ALIGN, ALIGN + 1]
     for _ in range(count):
         kind = draw(st.integers(0, 9))
-        if kind <= 3:  # around a unit boundary
+        if kind <= 3 and points and draw(st.booleans()):
+            off = draw(st.sampled_from(list(points))) + draw(st.sampled_from(deltas))
+        elif kind <= 3:  # around a unit boundary
             u = draw(st.integers(0, nunits))
             off = u * unit + draw(st.sampled_from(deltas))
         elif kind == 4:  # tail
